@@ -173,7 +173,7 @@ theorem lagrangeInterpolate_spec (points evals : List F) (hlen : points.length =
   simp only [hlen, ne_eq, not_true_eq_false, if_false, hnd]
   by_cases h1 : evals.length = 1
   · simp only [h1, if_true]
-    refine ⟨_, rfl, by simp [h1], ?_⟩
+    refine ⟨_, rfl, by simp, ?_⟩
     intro i hi
     have hi0 : i = 0 := by omega
     subst hi0
